@@ -256,7 +256,40 @@ def _counterfactual(cf):
     return None
 
 
+def judge_failures(case):
+    """a script in which many substitutions fail (inner text that cannot be parsed, inner commands that do not exist) and a
+    good one follows: the failures must leave nothing behind that keeps the good one from running"""
+    sb = _sb
+    sb.reset_log()
+    for f in os.listdir(sb.vpdir):
+        os.unlink(os.path.join(sb.vpdir, f))
+    with open(os.path.join(sb.vpdir, "out.G"), "w") as f:
+        f.write("good\n")
+    bad = {"unparsable": "$(vp_out G >)", "notfound": "$(vp_nonexistent_cmd)", "backquote-unparsable": "`vp_out G >`"}[case["bad"]]
+    lines = ["vp_argv B%d x%sy" % (i, bad) for i in range(case["n"])] + ["vp_argv LAST $(vp_out G)", 'vp_argv LAST2 "`vp_out G`"']
+    path = os.path.join(sb.root, "fails.sh")
+    with open(path, "w") as f:
+        f.write("\n".join(lines) + "\n")
+    r = run_cicada(sb, [path], timeout=120.0, budget=0)
+    recs = sb.records()
+    res = {"script_head": lines[:2], "n": case["n"], "stderr": r.err.decode("utf-8", "replace")[-300:]}
+    if r.timed_out:
+        return ("inconclusive", "timeout", res)
+    if crashed(r):
+        return ("violated", "C11:after-failed-substitutions:shell-crash", res)
+    last = [x["argv"][1:] for x in recs if x["name"] == "vp_argv" and x["argv"][1:2] and x["argv"][1].startswith("LAST")]
+    res["observed"] = last
+    if last != [["LAST", "good"], ["LAST2", "good"]]:
+        return ("violated", "C11:after-failed-substitutions:%s:a-later-substitution-does-not-work" % case["bad"], res)
+    ngood = sum(1 for x in recs if x["name"] == "vp_out" and x["argv"][1:2] == ["G"])
+    if case["bad"] == "notfound" and ngood != 2:
+        return ("violated", "C11:after-failed-substitutions:inner-command-ran-%d-times" % ngood, res)
+    return ("held", None, res)
+
+
 def judge(case):
+    if case.get("kind") == "failures-then-good":
+        return judge_failures(case)
     line, exp, r, recs = run_case(case)
     sym = symptom(case, exp, r, recs)
     res = {"line": line, "expected": exp[:300], "observed": [[a[:300] for a in x["argv"][1:]] for x in recs if x["name"] == "vp_argv"],
@@ -356,7 +389,7 @@ def run(tier, seed):
     rep = Report("C11", tier, seed)
     rep.rule = ("1..3 substitutions ($() or backquotes) per word with literal text around them, in unquoted / double-quoted "
                 "/ assignment / here-string context; inner commands: observer vp_out (simple, in a pipeline, failing, "
-                "named through a shell variable, run by a function (one command, two commands), with quoted arguments containing ) ( \\ and quotes, containing a substitution of the other spelling), a builtin, a not-found and an unparsable command; output texts from "
+                "named through a shell variable, run by a function (one command, two commands), with quoted arguments containing ) ( \\ and quotes, containing a substitution of the other spelling), a builtin, a not-found and an unparsable command (also 20..60 of them in one shell before a good one); output texts from "
                 "18 classes ($1, ${x}, $NAME, backslashes, *, braces, regex-special, interior/trailing newlines, "
                 "leading/trailing blanks, nested substitution syntax, operators, quotes, empty, unicode, 90 KB = more than a pipe buffer); 6% of the inner commands also write 100 KB to stderr (all of it has to arrive), 4% close their stdout and write their stderr 150 ms later.  Non-trivial "
                 "= always; distinct by full case.")
@@ -365,6 +398,10 @@ def run(tier, seed):
     rng = common.rng_for(seed, "C11")
     n = 60000 if tier == "thorough" else 10000
     cases = [gen_case(rng, k) for k in range(n)]
+    # one shell in which 20..60 substitutions fail before a good one
+    for bad in ("unparsable", "notfound", "backquote-unparsable"):
+        for nfail in ((20, 33, 40, 60) if tier == "thorough" else (33, 45)):
+            cases.append({"kind": "failures-then-good", "bad": bad, "n": nfail, "parts": [], "ctx": "script"})
     results = common.pmap(_work, cases, init=_init, initargs=(cicada,), chunksize=8)
     cls = {}
     for case, (verdict, sig, res) in zip(cases, results):
@@ -393,7 +430,7 @@ def replay(path):
     bad = 0
     for c in data["cases"]:
         case = c["case"]
-        case["parts"] = [tuple(p) for p in case["parts"]]
+        case["parts"] = [tuple(p) for p in case.get("parts", [])]
         v, sig, res = judge(case)
         print(v, sig, json.dumps(res, default=str)[:600])
         if v == "violated":
